@@ -246,6 +246,21 @@ def run(tier, seed):
             keep = got
         scripts += keep
     conv = [convert(s, rng) for s in scripts]
+    # held messages must end up the same whatever order they arrived in: for the asynchronous
+    # universe also run every script with each block of consecutive deliveries reversed
+    # (newest-first where TLC's shortest path happened to be oldest-first)
+    for s in scripts:
+        if s.get("async"):
+            ops, blk = [], []
+            for o in s["ops"]:
+                if o["op"] == "deliver" and o["m"]["k"] != "ca":
+                    blk.append(o)
+                else:
+                    ops += blk[::-1] + [o]
+                    blk = []
+            ops += blk[::-1]
+            if ops != s["ops"]:
+                conv.append(convert(dict(s, ops=ops), rng))
     spath = os.path.join(wd, "scripts.ndjson")
     with open(spath, "w") as f:
         for s in conv:
